@@ -16,51 +16,59 @@
    Close(i) returning nil requires: no message is "handling"; every handled
    message is settled; no unhandled message is acked.  After that no HStart.
    Close(i) returning an error is allowed only when a handler is still running
-   and the configured timeout has passed.  Run returns only after a Close call
+   and the configured timeout has passed; and every Close call returns within
+   CloseTimeout of being served (InTime), handlers finished or not.  Run returns only after a Close call
    (the router's own or the user's) completed its waiting, i.e. in a state where
    nothing is "handling" unless the close timed out.                            *)
 EXTENDS Naturals, Sequences, FiniteSets, TLC
 
-VARIABLES msg, st, closing, okClosed, timedOut, pend, subClosed, pubClosed, runRet, tcall
-cvars == <<msg, st, closing, okClosed, timedOut, pend, subClosed, pubClosed, runRet, tcall>>
+VARIABLES msg, st, closing, okClosed, timedOut, pend, subClosed, pubClosed, runRet, tcall, lastRet
+cvars == <<msg, st, closing, okClosed, timedOut, pend, subClosed, pubClosed, runRet, tcall, lastRet>>
 
 CInit == /\ msg = << >> /\ st = << >> /\ closing = FALSE /\ okClosed = FALSE /\ timedOut = FALSE
-         /\ pend = {} /\ subClosed = 0 /\ pubClosed = 0 /\ runRet = FALSE /\ tcall = << >>
+         /\ pend = {} /\ subClosed = 0 /\ pubClosed = 0 /\ runRet = FALSE /\ tcall = << >> /\ lastRet = 0
 
 Upd(f, k, v) == (k :> v) @@ f
 Handling == {m \in DOMAIN msg : msg[m] = "handling"}
 
 Emit(m) == /\ m \notin DOMAIN msg /\ msg' = Upd(msg, m, "emitted") /\ st' = Upd(st, m, "none")
-           /\ UNCHANGED <<closing, okClosed, timedOut, pend, subClosed, pubClosed, runRet, tcall>>
+           /\ UNCHANGED <<closing, okClosed, timedOut, pend, subClosed, pubClosed, runRet, tcall, lastRet>>
 \* a handler invocation starts: never after a Close call returned nil
 HStart(m) == /\ m \in DOMAIN msg /\ msg[m] = "emitted" /\ ~okClosed
              /\ msg' = [msg EXCEPT ![m] = "handling"]
-             /\ UNCHANGED <<st, closing, okClosed, timedOut, pend, subClosed, pubClosed, runRet, tcall>>
+             /\ UNCHANGED <<st, closing, okClosed, timedOut, pend, subClosed, pubClosed, runRet, tcall, lastRet>>
 HEnd(m) == /\ m \in DOMAIN msg /\ msg[m] = "handling" /\ msg' = [msg EXCEPT ![m] = "handled"]
-           /\ UNCHANGED <<st, closing, okClosed, timedOut, pend, subClosed, pubClosed, runRet, tcall>>
+           /\ UNCHANGED <<st, closing, okClosed, timedOut, pend, subClosed, pubClosed, runRet, tcall, lastRet>>
 
 CloseCall(i, t) == /\ i \notin pend /\ pend' = pend \cup {i} /\ closing' = TRUE /\ tcall' = Upd(tcall, i, t)
-                   /\ UNCHANGED <<msg, st, okClosed, timedOut, subClosed, pubClosed, runRet>>
+                   /\ UNCHANGED <<msg, st, okClosed, timedOut, subClosed, pubClosed, runRet, lastRet>>
 
 \* the settlement states sampled by the harness at this instant
 Sampled(states) == [m \in DOMAIN msg |-> IF m \in DOMAIN states THEN states[m] ELSE st[m]]
 Graceful(s) == /\ Handling = {}
                /\ \A m \in DOMAIN msg : /\ msg[m] = "handled" => s[m] # "none"      \* handled to completion and settled
                                         /\ msg[m] = "emitted" => s[m] # "ack"       \* never handled => never acked
-CloseRetNil(i, states) ==
+\* "... instead of hanging": Close calls are served one after the other, and a call that is being served returns
+\* within CloseTimeout (plus scheduling slack) whether or not the handlers have finished
+Slack == 1500000
+Max(a, b) == IF a > b THEN a ELSE b
+InTime(i, t, timeout) == t <= Max(tcall[i], lastRet) + timeout + Slack
+CloseRetNil(i, states, t, timeout) ==
     /\ i \in pend /\ pend' = pend \ {i}
     /\ Graceful(Sampled(states))
+    /\ InTime(i, t, timeout) /\ lastRet' = Max(lastRet, t)
     /\ st' = Sampled(states) /\ okClosed' = TRUE
     /\ UNCHANGED <<msg, closing, timedOut, subClosed, pubClosed, runRet, tcall>>
 \* an error only if handlers really outlived the timeout
 CloseRetErr(i, t, timeout) ==
     /\ i \in pend /\ pend' = pend \ {i}
     /\ Handling # {} /\ t >= tcall[i] + timeout
+    /\ InTime(i, t, timeout) /\ lastRet' = Max(lastRet, t)
     /\ timedOut' = TRUE
     /\ UNCHANGED <<msg, st, closing, okClosed, subClosed, pubClosed, runRet, tcall>>
 
-SubClose == subClosed' = subClosed + 1 /\ UNCHANGED <<msg, st, closing, okClosed, timedOut, pend, pubClosed, runRet, tcall>>
-PubClose == pubClosed' = pubClosed + 1 /\ UNCHANGED <<msg, st, closing, okClosed, timedOut, pend, subClosed, runRet, tcall>>
+SubClose == subClosed' = subClosed + 1 /\ UNCHANGED <<msg, st, closing, okClosed, timedOut, pend, pubClosed, runRet, tcall, lastRet>>
+PubClose == pubClosed' = pubClosed + 1 /\ UNCHANGED <<msg, st, closing, okClosed, timedOut, pend, subClosed, runRet, tcall, lastRet>>
 
 \* Run returns only after the close has completed, never while Close is still waiting for handlers
 \* (Close closes closedCh before it returns: Run may be seen returning before the timed-out Close call is)
@@ -70,7 +78,7 @@ RunRet(states, t, timeout) ==
                      ELSE IF \E i \in pend : t >= tcall[i] + timeout THEN TRUE
                      ELSE Graceful(Sampled(states))
                   /\ runRet' = TRUE /\ st' = Sampled(states)
-                  /\ UNCHANGED <<msg, closing, okClosed, timedOut, pend, subClosed, pubClosed, tcall>>
+                  /\ UNCHANGED <<msg, closing, okClosed, timedOut, pend, subClosed, pubClosed, tcall, lastRet>>
 
 \* all obligations discharged: every Close call returned, Run returned, subscriber and publisher of
 \* every handler were closed (nh handlers), final settlements are consistent
